@@ -414,7 +414,7 @@ theorem solvedBy_of_same (N N' : ANet P F) (hp : ∀ part, part ∈ N.parts ↔ 
     exact ⟨a, b, sol_of_same N N' hp hl he' a b hs, fun e hin => hv e (by rw [he]; exact hin)⟩
 
 /-- a sub-network keeps to itself: its links join its own pins, its exposed pins are its own and free inside it -/
-structure Closed (N : ANet P F) : Prop where
+structure ClosedFree (N : ANet P F) : Prop where
   links : ∀ l ∈ N.links, N.pinSet l.1 ∧ N.pinSet l.2
   exposed : ∀ e ∈ N.exposed, N.pinSet e ∧ ∀ q, ¬ N.Lnk e q
 
@@ -434,7 +434,7 @@ then an operator of the level with wrappers is an operator of the level with eve
 theorem substitution_all : ∀ (Cs : List (ANet P F × (P → P → F))) (out : List (List P × (P → P → F)))
     (L : List (P × P)) (E : List P) (T : P → P → F),
     (∀ cs ∈ Cs, ∃ Tc, cs.1.SolvedBy Tc ∧ ∀ p ∈ cs.1.exposed, ∀ q ∈ cs.1.exposed, cs.2 p q = Tc p q) →
-    (∀ cs ∈ Cs, cs.1.Closed) →
+    (∀ cs ∈ Cs, cs.1.ClosedFree) →
     (∀ part ∈ out, ∀ p ∈ part.1, ∀ cs ∈ Cs, ¬ cs.1.pinSet p) →
     Cs.Pairwise (fun c d => ∀ p, c.1.pinSet p → ¬ d.1.pinSet p) →
     (∀ l ∈ L, ∀ cs ∈ Cs, (cs.1.pinSet l.1 → l.1 ∈ cs.1.exposed) ∧ (cs.1.pinSet l.2 → l.2 ∈ cs.1.exposed)) →
@@ -613,7 +613,7 @@ theorem pinSet_map (q : Q) : (N.map f g).pinSet q ↔ ∃ p, N.pinSet p ∧ q = 
     exact ⟨_, ⟨part, hp, rfl⟩, List.mem_map.2 ⟨p, hpp, rfl⟩⟩
 
 omit [Field F] in
-theorem Closed.map (hg : Function.LeftInverse g f) (h : N.Closed) : (N.map f g).Closed := by
+theorem ClosedFree.map (hg : Function.LeftInverse g f) (h : N.ClosedFree) : (N.map f g).ClosedFree := by
   constructor
   · intro l' hl'
     obtain ⟨l, hl, rfl⟩ := List.mem_map.1 hl'
@@ -650,7 +650,7 @@ structure FlatInv (h : HNet F) (c : CompD F) (T : HPin → HPin → F) : Prop wh
   exposed : h.flat.exposed = c.pins.map h.resolve
   coeff : ∀ x ∈ c.pins, ∀ y ∈ c.pins, T (h.resolve x) (h.resolve y) = c.sem x y
   inj : ∀ x ∈ c.pins, ∀ y ∈ c.pins, h.resolve x = h.resolve y → x = y
-  closed : h.flat.Closed
+  closed : h.flat.ClosedFree
 
 theorem flat_leaf (c : CompD F) : (HNet.leaf c).flat =
     { parts := [(c.pins.map fun x => ([], x), fun p q => c.sem p.2 q.2)], links := [],
@@ -819,7 +819,7 @@ theorem flatInv_node (cs : List (HNet F)) (links : List (PinRef × PinRef)) (exp
       simpa [resolveRef, pre] using this
     subst hji
     exact hCmem j x hx
-  have hCclosed : ∀ i : Fin cs.length, (C i).Closed := fun i => ANet.Closed.map (unpre_pre i.1) (hTf i).closed
+  have hCclosed : ∀ i : Fin cs.length, (C i).ClosedFree := fun i => ANet.ClosedFree.map (unpre_pre i.1) (hTf i).closed
   have hCdisj : ∀ i j : Fin cs.length, i ≠ j → ∀ p, (C i).pinSet p → ¬ (C j).pinSet p := by
     intro i j hij p h1 h2
     have := (hChead i p h1).symm.trans (hChead j p h2)
